@@ -190,6 +190,42 @@ def run_rule(rule, arch):
     if _TIMED_OUT[0] >= 2:
         # two evaluations in this process already failed to terminate: report those, do not spend the budget on more
         return ("ERR", "NonTermination: not evaluated (earlier evaluations in this run did not terminate)")
+    _RUNS[0] += 1
+    if _RUNS[0] % 5 == 0:
+        # every fifth rule object is used twice, and it is the SECOND evaluation that is compared with the documented
+        # semantics and the model: what a rule states does not depend on whether the object has been evaluated before -
+        # on the same architecture, or (every tenth) on another one in which some of the modules do not exist
+        _run_rule_once(rule, arch if _RUNS[0] % 10 else _decoy_for(arch))
+    return _run_rule_once(rule, arch)
+
+
+_RUNS = [0]
+_RESPEC = [0]
+_DECOYS = {}
+
+
+def _decoy_for(arch):
+    """another architecture object: the modules of `arch` without every other leaf module, plus one module `arch` does not
+    have, and no imports at all (kept per architecture object; the object is kept alive with it so that ids are not reused)"""
+    hit = _DECOYS.get(id(arch))
+    if hit is not None and hit[0] is arch:
+        return hit[1]
+    try:
+        mods = sorted(arch.modules)
+        leaves = [m for m in mods if not any(o.startswith(m + ".") for o in mods)]
+        drop = set(leaves[1::2])
+        keep = [m for m in mods if m not in drop]
+        top = min(mods, key=len) if mods else "r"
+        decoy = make_arch_direct(keep + [top + ".only_in_decoy"], [])
+    except Exception:  # noqa: BLE001
+        decoy = arch
+    if len(_DECOYS) > 64:
+        _DECOYS.clear()
+    _DECOYS[id(arch)] = (arch, decoy)
+    return decoy
+
+
+def _run_rule_once(rule, arch):
     try:
         cpu_limited(lambda: rule.assert_applies(arch))
         return ("PASS", "")
@@ -480,7 +516,19 @@ def eval_cases(cases):
         outs = []
         for s in specs:
             try:
-                rule = build_rule(s)
+                _RESPEC[0] += 1
+                if _RESPEC[0] % 7 == 0 and s.get("obj") is not None and not s.get("anything") and s["obj"][0] in ("named", "sub") \
+                        and s.get("subj") is not None and s["subj"][0] in ("named", "sub"):
+                    # every seventh rule object is first written with another object list (the subject's own first module),
+                    # evaluated, and then given its object list again: the rule states what was written last
+                    rule = build_rule(dict(s, obj=("named", list(s["subj"][1])[:1])))
+                    _run_rule_once(rule, arch)
+                    kind, names = s["obj"]
+                    rule = getattr(rule, {"named": "are_named", "sub": "are_sub_modules_of"}[kind])(_spell_names(names))
+                    if rule is None:
+                        raise FluentChainBroken("re-specifying the object returned None")
+                else:
+                    rule = build_rule(s)
             except Exception as e:  # noqa: BLE001  (builder rejected the chain)
                 outs.append(("ERR", classify_exception(e)))
                 continue
@@ -882,7 +930,12 @@ def gen_random_cases(rng, n, strict, mode="direct", pools=(COLLISION_FREE, ADVER
         fp = pick_filters(rng, nodes, strict, kmax=6 if large else 3)
         if fp is None:
             continue
-        cases.append(dict(nodes=nodes, edges=edges, specs=all_shapes(*fp), mode=mode, tag=("rand", strict, "huge" if huge else "large" if large else "forest" if forest else mode)))
+        specs = all_shapes(*fp)
+        if rng.random() < 0.35 and fp[0][0] in ("named", "sub") and "." in fp[0][1][0]:
+            # the same architecture object is first asked about the PARENT of the first subject (same objects): what an earlier
+            # rule found out about a package says nothing about the rules that follow
+            specs = all_shapes(("named", [fp[0][1][0].rsplit(".", 1)[0]]), fp[1], with_aliases=False) + specs
+        cases.append(dict(nodes=nodes, edges=edges, specs=specs, mode=mode, tag=("rand", strict, "huge" if huge else "large" if large else "forest" if forest else mode)))
     return cases
 
 
